@@ -34,6 +34,12 @@ func checkC03(c *Ctx) {
 	ruleOneSlotBuffers(c, "C03.j")
 	c.rule("C03.k", "a hand-over counter compared with cap(ch) is incremented before the test and the send of the same round (every item of a long FETCH response is delivered)", 1)
 	ruleCountBeforeSend(c, "C03.k")
+	c.rule("C03.l", "the server's capability and state tests treat Selected as Authenticated (no capability lost by selecting a mailbox)", 3)
+	ruleSelectedIsAuthenticated(c, "C03.l")
+	c.rule("C03.m", "64-bit numeric data fields are parsed with a 64-bit reader", 5)
+	ruleParseWidth(c, "C03.m")
+	c.rule("C03.n", "an index sentinel (-1 until a loop finds a position) is tested only by comparisons that separate -1 from every index", 1)
+	ruleSentinelTests(c, "C03.n", "imapserver", "imapserver/imapmemserver", "imapclient")
 	ruleOptionDefaulting(c, "C03.h")
 }
 
